@@ -35,7 +35,7 @@ ENABLED = {
 }
 
 
-class RunTimeout(Exception):
+class RunTimeout(BaseException):
     pass
 
 
@@ -52,6 +52,7 @@ def execute(prop, ops=None, seed=None, idx=None, tier="quick", cfg=None, enabled
     from .world import World
     from .session import Session, HarnessError
     from .drive import swarm, drive
+    from . import specials  # noqa: registers SPECIAL drivers
 
     res = {"idx": idx, "prop": prop, "violations": [], "harness": None}
     record = []
@@ -60,6 +61,7 @@ def execute(prop, ops=None, seed=None, idx=None, tier="quick", cfg=None, enabled
         if cfg is None:
             cfg = make_cfg(prop, rnd, tier)
     enabled = enabled or ENABLED[prop]
+    t_start = time.time()
     old = signal.signal(signal.SIGALRM, _alarm)
     signal.setitimer(signal.ITIMER_REAL, timeout)
     sess = None
@@ -99,6 +101,7 @@ def execute(prop, ops=None, seed=None, idx=None, tier="quick", cfg=None, enabled
         res["faults"].update({"proc:" + k: v for k, v in w.proc.fired_counts.items()})
     res["ops"] = record
     res["cfg"] = cfg
+    res["wall"] = round(time.time() - t_start, 3)
     return res
 
 
